@@ -16,8 +16,8 @@ pub struct Input {
     pub item: String,
 }
 
-/// Returns the number of inputs validated.
-pub fn validate(rep: &mut Report, label: &str, inputs: &[Input]) -> u64 {
+/// Returns the number of inputs validated, or a description of the first disagreement.
+pub fn validate(rep: &mut Report, label: &str, inputs: &[Input]) -> Result<u64, String> {
     // in-process side
     let mut want: Vec<Option<Vec<String>>> = Vec::new();
     for i in inputs {
@@ -62,20 +62,32 @@ pub fn validate(rep: &mut Report, label: &str, inputs: &[Input]) -> u64 {
             if let Some(rest) = d.strip_prefix("dump:\n") {
                 match lex(rest) {
                     Ok(ts) => got.push(flat_str(ts)),
-                    Err(e) => machinery(&format!("pipeline conformance: dumped text of `{}` does not lex: {e}", inputs[k].item)),
+                    Err(e) => return Err(format!("dumped text of `{}` does not lex: {e}", inputs[k].item)),
                 }
             }
         }
         got.sort();
         let w = want[k].as_ref().unwrap();
         if &got != w {
-            machinery(&format!("pipeline conformance ({label}): the real proc-macro pipeline and the in-process expansion disagree on #[derive_ex({})] {} via {}: rustc dumped {} impl group(s), in-process produced {}; first difference: {:?} vs {:?}", inputs[k].attr, inputs[k].item, inputs[k].entry.name(), got.len(), w.len(), got.iter().zip(w.iter()).find(|(a, b)| a != b).map(|(a, _)| a.chars().take(200).collect::<String>()), got.iter().zip(w.iter()).find(|(a, b)| a != b).map(|(_, b)| b.chars().take(200).collect::<String>())));
+            return Err(format!("pipeline conformance ({label}): the real proc-macro pipeline and the in-process expansion disagree on #[derive_ex({})] {} via {}: rustc dumped {} impl group(s), in-process produced {}; first difference: {:?} vs {:?}", inputs[k].attr, inputs[k].item, inputs[k].entry.name(), got.len(), w.len(), got.iter().zip(w.iter()).find(|(a, b)| a != b).map(|(a, _)| a.chars().take(200).collect::<String>()), got.iter().zip(w.iter()).find(|(a, b)| a != b).map(|(_, b)| b.chars().take(200).collect::<String>())));
         }
         n += 1;
     }
     rep.validated += n;
     rep.set("pipeline_conformance", json!({"inputs_compiled_by_real_rustc_with_dump_and_compared_token_for_token": n, "inputs_skipped_because_expansion_is_an_error_or_not_per_trait": inputs.len() as u64 - n}));
-    n
+    Ok(n)
+}
+
+/// A disagreement is a machinery failure unless the check has already decided on a violation
+/// (a broken property can legitimately break the `dump` round trip as well).
+pub fn validate_or_die(rep: &mut Report, label: &str, inputs: &[Input]) {
+    if rep.n_violations() > 0 {
+        rep.set("pipeline_conformance", json!("skipped: the run already reports violations"));
+        return;
+    }
+    if let Err(e) = validate(rep, label, inputs) {
+        machinery(&e);
+    }
 }
 
 /// Compile every case once (all of them are expected to fail with `dump` errors) and return
